@@ -18,6 +18,8 @@
  *     peak=<max sp seen before an instruction> ret=<nev_execute ret|-> result=<type>:<value>|-
  *     nilcell=<0|1: cell 0 of the heap holds an object at exit>
  *     heap=<free list head>,<cells 1.. holding an object>,<mem_size>   (at exit)
+ *     extent=<bytes allocated>/<bytes configured> for machine->stack, collector->mem, wb_list[0], wb_list[1]
+ *            right after vm_new (stack_size * sizeof(gc_stack), mem_size * sizeof(gc_mem), mem_size * sizeof(mem_ptr))
  *     out=<hex stdout> err=<hex stderr>
  * First line: COMPILE <ret>; after a failed prepare: PREPARE <ret>.
  */
@@ -38,6 +40,14 @@
 #include "gc.h"
 #include "vm.h"
 
+/* exact size of a malloc'ed block as recorded by the sanitizer run-time (ASan builds) */
+#if defined(__SANITIZE_ADDRESS__)
+extern size_t __sanitizer_get_allocated_size(const volatile void * p);   /* libasan */
+#define HAVE_ALLOC_SIZE 1
+#else
+#define HAVE_ALLOC_SIZE 0
+#endif
+
 #ifdef NEVER_VERIF
 extern void (*nev_verif_step_hook)(vm * machine, bytecode * code);
 #endif
@@ -48,6 +58,7 @@ typedef struct
     volatile int last_ip, last_sp, last_op, peak_sp;
     volatile int ret, have_ret, result_type, budget, nilcell;
     volatile unsigned heap_free, heap_used, heap_size;
+    volatile long ext_have, ext_stack, ext_mem, ext_wb0, ext_wb1;
     volatile long long result_bits;
 } shared;
 
@@ -175,6 +186,15 @@ int main(int argc, char ** argv)
             object result = { 0 };
             vm * machine = vm_new(mem, stack);
             g_machine = machine;
+            /* the arrays vm_new really allocated: the configured stack has stack_size slots, the cell
+               table and both allocation lists have mem_size entries */
+#if HAVE_ALLOC_SIZE
+            sh->ext_have = 1;
+            sh->ext_stack = machine->stack ? (long)__sanitizer_get_allocated_size(machine->stack) : -1;
+            sh->ext_mem = machine->collector->mem ? (long)__sanitizer_get_allocated_size(machine->collector->mem) : -1;
+            sh->ext_wb0 = machine->collector->wb_list[0] ? (long)__sanitizer_get_allocated_size(machine->collector->wb_list[0]) : -1;
+            sh->ext_wb1 = machine->collector->wb_list[1] ? (long)__sanitizer_get_allocated_size(machine->collector->wb_list[1]) : -1;
+#endif
             int r = nev_execute(prog, machine, &result);
             fflush(stdout);
             sh->ret = r; sh->have_ret = 1;
@@ -211,7 +231,13 @@ int main(int argc, char ** argv)
         printf(" steps=%lu last=%d,%d,%d peak=%d", sh->steps, sh->last_ip, sh->last_sp, sh->last_op, sh->peak_sp);
         if (sh->have_ret) printf(" ret=%d", sh->ret); else printf(" ret=-");
         if (sh->have_ret && sh->ret == 0) printf(" result=%d:%lld", sh->result_type, sh->result_bits); else printf(" result=-");
-        printf(" nilcell=%d heap=%u,%u,%u out=", sh->nilcell, sh->heap_free, sh->heap_used, sh->heap_size);
+        printf(" nilcell=%d heap=%u,%u,%u", sh->nilcell, sh->heap_free, sh->heap_used, sh->heap_size);
+        if (sh->ext_have)
+            printf(" extent=%ld/%zu,%ld/%zu,%ld/%zu,%ld/%zu", sh->ext_stack, (size_t)stack * sizeof(gc_stack),
+                   sh->ext_mem, (size_t)mem * sizeof(gc_mem), sh->ext_wb0, (size_t)mem * sizeof(mem_ptr),
+                   sh->ext_wb1, (size_t)mem * sizeof(mem_ptr));
+        else printf(" extent=-");
+        printf(" out=");
         hexfile(fo, 1 << 16);
         printf(" err=");
         hexfile(fe, 1 << 14);
